@@ -47,7 +47,7 @@ Qed.
 
 Lemma read_line_inner_wire ch l rest : nonempty ch -> concat ch = wire l ++ rest -> valid l ->
   exists w ch', read_line_inner ch MAX_LINE_LEN = Ok (RLine l, w, ch') /\ nonempty ch' /\ concat ch' = rest /\
-    all_at_once_gen MAX_LINE_LEN w = Ok l.
+    all_at_once_gen MAX_LINE_LEN w = Ok l /\ w = wire l.
 Proof.
   intros Hne Hc Hv. destruct MAX_vals as (EM & ED & EU).
   unfold read_line_inner. rewrite EM. replace (65520 <? 4) with false by reflexivity.
@@ -64,7 +64,7 @@ Proof.
     destruct (read_exact_flat ch1 N1 (len c)) as [Rc _].
     destruct (Rc ltac:(rewrite C1, len_app; lia)) as (ch2 & E2 & C2 & N2). rewrite E2, C1, firstn_len_app.
     rewrite C1, skipn_len_app in C2. unfold to_data_line. rewrite EM. replace (65520 <? len c) with false by lia.
-    do 2 eexists. split; [reflexivity|]. repeat split; try assumption.
+    do 2 eexists. split; [reflexivity|]. split; [assumption|]. split; [assumption|]. split; [|reflexivity].
     apply (all_at_once_gen_wanted 65520 (hexof (Data c)) c (len c)); try apply hexof_length; try reflexivity; try lia.
     all: try (apply (hex_prefix_hexof (Data c)); cbn [valid]; rewrite ED; lia); try (rewrite EM; lia).
   - do 2 eexists. split; [reflexivity|]. repeat split; try assumption.
@@ -83,14 +83,15 @@ Lemma buf_std it : vlen (if vlen (buf it) =? MAX_LINE_LEN then buf it else vec_r
 Proof. destruct (vlen (buf it) =? MAX_LINE_LEN) eqn:E; [lia | reflexivity]. Qed.
 
 Lemma read_line_wire it ds f l rest : ready it ds f -> concat (rd it) = wire l ++ rest -> passes ds f l ->
-  exists it', read_line it = Ok (Some (RLine l), it') /\ ready it' ds f /\ concat (rd it') = rest.
+  exists it', read_line it = Ok (Some (RLine l), it') /\ ready it' ds f /\ concat (rd it') = rest /\
+    buf it' = {| known := wire l; vlen := MAX_LINE_LEN |}.
 Proof.
   intros (Hd & Hp & Hf & Hds & Hne) Hc (Hv & Hfind & Herr).
   unfold read_line. rewrite Hd, Hp. change (0 =? 0) with true. cbn [negb].
   unfold read_line_inner_exhaustive. rewrite buf_std.
-  destruct (read_line_inner_wire (rd it) l rest Hne Hc Hv) as (w & ch' & E & N' & C' & D'). rewrite E. cbn [obind].
+  destruct (read_line_inner_wire (rd it) l rest Hne Hc Hv) as (w & ch' & E & N' & C' & D' & W'). rewrite E. cbn [obind].
   rewrite Hds, Hfind, Hf, Herr. unfold decode_expect. cbn [known vlen]. rewrite ?buf_std, D'. cbn [obind].
-  eexists. split; [reflexivity|]. split; [|exact C'].
+  eexists. split; [reflexivity|]. split; [|split; [exact C'|cbn [buf]; rewrite W'; reflexivity]].
   repeat split; cbn; assumption.
 Qed.
 
@@ -102,7 +103,7 @@ Proof.
   intros (Hd & Hp & Hf & Hds & Hne) Hc Hv Hfind.
   unfold read_line. rewrite Hd, Hp. change (0 =? 0) with true. cbn [negb].
   unfold read_line_inner_exhaustive. rewrite buf_std.
-  destruct (read_line_inner_wire (rd it) dl rest Hne Hc Hv) as (w & ch' & E & N' & C' & D'). rewrite E. cbn [obind].
+  destruct (read_line_inner_wire (rd it) dl rest Hne Hc Hv) as (w & ch' & E & N' & C' & D' & W'). rewrite E. cbn [obind].
   rewrite Hds, Hfind. eexists. split; [reflexivity|]. repeat split; cbn; assumption.
 Qed.
 
@@ -125,7 +126,7 @@ Proof.
   induction ls as [|l ls IH]; intros it rest Hr Hall Hc.
   - cbn. eexists. split; [reflexivity|]. split; [exact Hr | exact Hc].
   - inversion Hall as [|? ? Hl Hls]; subst. cbn [map concat] in Hc. rewrite <- app_assoc in Hc.
-    destruct (read_line_wire it ds f l _ Hr Hc Hl) as (it1 & E1 & R1 & C1).
+    destruct (read_line_wire it ds f l _ Hr Hc Hl) as (it1 & E1 & R1 & C1 & _).
     destruct (IH it1 rest R1 Hls C1) as (it2 & E2 & R2 & C2).
     cbn [length repeat run_ops step map]. rewrite E1. cbn [obind fst snd]. rewrite E2. cbn [obind fst snd].
     eexists. split; [reflexivity|]. split; assumption.
